@@ -35,8 +35,9 @@ def type_bads_state(c):
             "self.search_mesh_size", 'self.optim_state["search_sufficient_improvement"]', "self.f_q_historic_improvement")
     c.bools("self.reset_gp", "self.gp_refitted_flag")
     c.arr("self.iteration_history['u']", 2, [None, "self.D"])
-    for k in ("fval", "fsd", "yval"):
+    for k in ("fval", "fsd", "yval", "func_count"):
         c.arr("self.iteration_history['%s']" % k, 1, [None])
+    c.arr("self.iteration_history['x']", 2, [None, "self.D"])
     c.arr("self.u", 1, ["self.D"])
     c.arr("self.u_best", 1, ["self.D"])
     c.arr("self.lower_bounds", 2, [1, "self.D"], ext="lo")
@@ -62,6 +63,8 @@ def inv_bads(c, ensure=True):
         "inv_vt_order": "forall(self.D, lambda j: self.function_logger.variable_transformer.orig_lb[0][j] <= self.function_logger.variable_transformer.orig_ub[0][j])",
         "inv_cons_ghost": "isnone(self.non_box_cons) == ghost.cons_none",
         "inv_tol_mesh": "self.optim_state['tol_mesh'] > 0",
+        "inv_he_level": "implies(truthy(self.function_logger.he_noise_flag), self.optim_state['uncertainty_handling_level'] == 2) and "
+                        "self.optim_state['uncertainty_handling_level'] >= 0",
         "inv_var_transf": "self.var_transf.D == self.D and forall(self.D, lambda j: self.var_transf.orig_lb[0][j] <= self.var_transf.orig_ub[0][j])",
     }
     vt_types(c, "self.var_transf")
@@ -133,3 +136,14 @@ def inv_c02(c, require=True, ensure=True, u_best=True, u=True):
         if ensure:
             c.ens(k, v, top=True, props=["C02"])
     return cl
+
+
+HX = "self.iteration_history['x']"
+HY = "self.iteration_history['yval']"
+HFC = "self.iteration_history['func_count']"
+HIST_PAIRS = ("rows(ghost.hidx) == rows(%s) and forall(rows(%s), lambda k: 0 <= ghost.hidx[k] and ghost.hidx[k] <= %s.Xn and "
+              "pteq(row(%s.X, ghost.hidx[k]), row(%s, k)) and %s.Y[ghost.hidx[k]][0] == %s[k])" % (HU, HU, FLG, FLG, HU, FLG, HY))
+HIST_PAIRS_EX = ("forall(rows(%s), lambda k: exists(%s.Xn + 1, lambda i: pteq(row(%s.X, i), row(%s, k)) and %s.Y[i][0] == %s[k]))" % (HU, FLG, FLG, HU, FLG, HY))
+HIST_XMAP = "rows(%s) == rows(%s) and forall(rows(%s), lambda k: pteq(row(%s, k), invt(row(%s, k))))" % (HX, HU, HU, HX, HU)
+HIST_FC = ("rows(%s) == rows(%s) and forall(rows(%s), lambda k: %s[k] <= %s.func_count) and "
+           "forall(rows(%s), rows(%s), lambda a, b: implies(a <= b, %s[a] <= %s[b]))" % (HFC, HU, HFC, HFC, FLG, HFC, HFC, HFC, HFC))
